@@ -398,6 +398,15 @@ func init() {
 		return nil
 	})
 	reg("(*sync.Pool).Get", func(e *Engine, fr *frame, fn *ssa.Function, a []Value) Value {
+		if _, on := e.kv["__pool_reuse"]; on {
+			// recycling mode: Get hands out the object put back last, or a fresh one
+			if p, ok := a[0].(*Value); ok && len(e.pools[p]) > 0 && e.Choose(2) == 1 {
+				items := e.pools[p]
+				it := items[len(items)-1]
+				e.pools[p] = items[:len(items)-1]
+				return it
+			}
+		}
 		nf := *e.fieldPtr(fr, fn, a[0], "New")
 		switch f := nf.(type) {
 		case *ssa.Function:
@@ -407,7 +416,25 @@ func init() {
 		}
 		return e.call(fr, token.NoPos, nf, nil)
 	})
-	reg("(*sync.Pool).Put", func(e *Engine, fr *frame, fn *ssa.Function, a []Value) Value { return nil })
+	reg("(*sync.Pool).Put", func(e *Engine, fr *frame, fn *ssa.Function, a []Value) Value {
+		if _, on := e.kv["__pool_reuse"]; on {
+			if p, ok := a[0].(*Value); ok {
+				if e.pools == nil {
+					e.pools = map[*Value][]Value{}
+				}
+				e.pools[p] = append(e.pools[p], a[1])
+			}
+		}
+		return nil
+	})
+	reg(verifPkg+".PoolReuse", func(e *Engine, fr *frame, fn *ssa.Function, a []Value) Value {
+		if t, ok := a[0].(*sym.Term); ok && t.IsTrue() {
+			e.kv["__pool_reuse"] = true
+		} else {
+			delete(e.kv, "__pool_reuse")
+		}
+		return nil
+	})
 	reg("(*sync.Cond).Wait", func(e *Engine, fr *frame, fn *ssa.Function, a []Value) Value {
 		p := e.derefCheck(fr, a[0])
 		L := (*e.fieldPtr(fr, fn, a[0], "L")).(Iface)
